@@ -66,6 +66,12 @@ SEEDS = {
     "C13f": ("C13", "the all-N-line shortcut closes the open run only `if run_start:`", "a sequence whose first run starts at 0, ends at a line break and is followed by an all-N line", "caught", None),
     "C15f": ("C15", "PAR masks built as a fresh-index Series and combined by label", "center_all with skip_low and a PAR genome on a table with null-coverage bins (the filtered table has label gaps)", "caught", None),
     "C17f": ("C17", "bintest assigns the residuals back by position instead of by label", "segments covering every bin whose chromosomes come in another order than the bin table's", "missed", "C17 now lists the segment table's chromosomes in another order than the bin table on a third of the cases"),
+    "C04g": ("C04", "match_ref_to_sample gains a positional shortcut guarded by np.allclose on the coordinates", "bins of a few hundred bases at coordinates >= 5e7, a reference with exactly the sample's row count (target-only), and a locally swapped / shifted / duplicated bin", "missed", "C04 now places bins at 2.4e8 and 3e9, and builds target-only references for samples without antitargets"),
+    "C06g": ("C06", "subdivide computes bin edges with np.arange(float step)", "(length, avg_size) pairs whose quotient lands one ulp above the bin count, e.g. 34 / 5", "caught", None),
+    "C07g": ("C07", "idx_ranges casts the query coordinates to int32", "a query coordinate >= 2^31", "missed", "C06 and C07 now move whole cases up the chromosome by 3e8, 2^31 -+ and 2^32 + 11 on half of the cases"),
+    "C10g": ("C10", "shift_xx returns self when the sex cannot be inferred; genemetrics then writes NaN columns into the caller's array", "an array without chrX bins, sex not given, genemetrics with segments that carry extra columns", "missed", "C10 builds an autosome-only workspace on a third of the seeds and lets genemetrics take the column-rich segments"),
+    "C12g": ("C12", "subdivide's last bin end computed as start + int(nbins * (span / nbins))", "regions cut into >= 11 bins with particular lengths", "caught", None),
+    "C14g": ("C14", "enumerate_changes compares levels with np.isclose", "the cn filter with adjacent copy numbers >= 1e5 that differ by 1", "missed", "C14 now lifts whole tables to a base copy number of 1e5 / 1e6"),
 }
 
 
